@@ -373,6 +373,30 @@ func c17BoundsByCases(c *Ctx, rule string) {
 					got = fmt.Sprintf("s[%d:%d]", lo, hi)
 				}
 			}
+			if !decided && len(r.Returns) > 0 {
+				// every reachable return hands back an error made on the spot (positions that cannot be clamped
+				// reported by the builtin itself instead of by the slice expression)
+				allErrs := true
+				for _, ret := range r.Returns {
+					isErr := false
+					if len(ret.Results) == 2 {
+						for _, rt := range plainOrigins.Roots(ret.Results[1]) {
+							if rt.Kind == "call" && rt.Fn != nil && (rt.Fn.String() == "fmt.Errorf" || rt.Fn.String() == "errors.New") {
+								isErr = true
+							}
+						}
+					}
+					if !isErr {
+						allErrs = false
+					}
+				}
+				if allErrs {
+					decided = true
+					if !sm.err {
+						good, got = false, "an error returned by the builtin"
+					}
+				}
+			}
 			if !decided {
 				// written as a composition of other string functions: evaluated through them
 				if ab, bad, dec := c.strEval(f, [2]int64{0, sm.n}, args[1:], 0); dec {
@@ -423,7 +447,7 @@ func c17BoundsByCases(c *Ctx, rule string) {
 	}
 	run("left", []sample{{[]int64{3}, 5, -1, 3, false}, {[]int64{9}, 5, -1, 5, false}, {[]int64{5}, 5, -1, 5, false}, {[]int64{-1}, 5, 0, 0, true}})
 	run("right", []sample{{[]int64{3}, 5, 2, -1, false}, {[]int64{9}, 5, 0, -1, false}, {[]int64{-2}, 5, 0, 0, true}})
-	run("mid", []sample{{[]int64{1, 3}, 5, 1, 3, false}, {[]int64{-2, 3}, 5, 0, 3, false}, {[]int64{1, 9}, 5, 1, 5, false}, {[]int64{0, 5}, 5, 0, 5, false}, {[]int64{3, 1}, 5, 0, 0, true}, {[]int64{1, -3}, 5, 0, 0, true}, {[]int64{7, 9}, 5, 0, 0, true}})
+	run("mid", []sample{{[]int64{1, 3}, 5, 1, 3, false}, {[]int64{-2, 3}, 5, 0, 3, false}, {[]int64{1, 9}, 5, 1, 5, false}, {[]int64{0, 5}, 5, 0, 5, false}, {[]int64{5, 5}, 5, 5, 5, false}, {[]int64{5, 9}, 5, 5, 5, false}, {[]int64{3, 1}, 5, 0, 0, true}, {[]int64{1, -3}, 5, 0, 0, true}, {[]int64{7, 9}, 5, 0, 0, true}})
 }
 
 // c17CasesDecided: name's bounds are decided, and decided right, at every sample point (the error points included) in
